@@ -47,7 +47,7 @@ func (r c11Res) String() string { return fmt.Sprintf("(%q, %v, err=%v)", r.S, r.
 
 func (o c11Op) suite() (otp.Suite, ref.OCRACfg) {
 	if o.Reg != "" {
-		s, _ := otp.NewRawSuite(o.Reg)
+		s, _ := otp.NewRawSuite(o.Reg) // registered name or parsed suite string (any spelling)
 		rd, _ := ref.ReadSuite(o.Reg, true)
 		return s, rd.Cfg
 	}
@@ -253,11 +253,16 @@ func drawC11Op(t *rapid.T, allowHostile bool) c11Op {
 	o.Skew = rapid.IntRange(0, 3).Draw(t, "skew")
 	o.Dist = rapid.IntRange(-4, 4).Draw(t, "dist")
 	if strings.HasPrefix(o.Kind, "ocra") {
-		if rapid.Bool().Draw(t, "useReg") {
+		switch rapid.IntRange(0, 2).Draw(t, "suiteSrc") {
+		case 0:
 			o.Reg = rapid.SampledFrom(registeredNames).Draw(t, "reg")
 			rd, _ := ref.ReadSuite(o.Reg, true)
 			o.In = drawAdmissible(t, rd.Cfg)
-		} else {
+		case 1: // a parsed (unregistered) suite in one of several spellings: the message starts with the string as given
+			o.Reg = spellVariant(t, rapid.SampledFrom(parsedPool).Draw(t, "parsed"))
+			rd, _ := ref.ReadSuite(o.Reg, false)
+			o.In = drawAdmissible(t, rd.Cfg)
+		default:
 			o.Cfg = drawUsableCfg(t)
 			if rapid.Bool().Draw(t, "longRaw") { // messages longer than the pooled 256-byte buffer
 				o.Cfg.Raw = strings.Repeat("R", rapid.IntRange(100, 400).Draw(t, "rawLen"))
@@ -267,7 +272,8 @@ func drawC11Op(t *rapid.T, allowHostile bool) c11Op {
 		o.Dist = rapid.IntRange(0, 1).Draw(t, "wrong")
 	}
 	if o.Kind == "lookup" {
-		o.Text = rapid.SampledFrom(append([]string{"OCRA-1:HOTP-SHA1-6:QN08-T5M", "nonsense", "OCRA-1:HOTP-SHA512-10:C-QN10-PSHA256-S064-T48H"}, registeredNames[:6]...)).Draw(t, "text")
+		o.Text = rapid.SampledFrom(append(append([]string{"OCRA-1:HOTP-SHA1-6:QN08-T5M", "nonsense", "OCRA-1:HOTP-SHA512-10:C-QN10-PSHA256-S064-T48H"}, registeredNames[:6]...), parsedPool...)).Draw(t, "text")
+		o.Text = spellVariant(t, o.Text)
 	}
 	if o.Kind == "url" {
 		o.Text = rapid.SampledFrom([]string{"alice", "a b", "x/y?z", "é"}).Draw(t, "text")
@@ -275,8 +281,26 @@ func drawC11Op(t *rapid.T, allowHostile bool) c11Op {
 	return o
 }
 
+// parsedPool: unregistered suite strings the parser accepts; spellVariant lower-cases a drawn subset of
+// the letters after the version part (the parser folds case; time-unit letters stay upper-case).
+var parsedPool = []string{"OCRA-1:HOTP-SHA256-8:QN08-T1M", "OCRA-1:HOTP-SHA1-7:C-QN10", "OCRA-1:HOTP-SHA512-9:QN08-PSHA1-S064-T30S", "OCRA-1:HOTP-SHA1-10:C-QN08-S"}
+
+func spellVariant(t *rapid.T, name string) string {
+	if rapid.IntRange(0, 2).Draw(t, "variantK") == 0 {
+		return name
+	}
+	b := []byte(name)
+	mask := rapid.Uint64().Draw(t, "variantMask")
+	for i := 7; i < len(b); i++ {
+		if b[i] >= 'A' && b[i] <= 'Z' && (mask>>(uint(i)%64))&1 == 1 && !(i == len(b)-1 && i > 0 && b[i-1] >= '0' && b[i-1] <= '9') {
+			b[i] += 32
+		}
+	}
+	return string(b)
+}
+
 func TestC11_Sequential(t *testing.T) {
-	c11Seq.rapid(t, ev.Pick(1_500, 30_000), func(t *rapid.T) c11SeqCase {
+	c11Seq.rapid(t, ev.Pick(1_500, 12_000), func(t *rapid.T) c11SeqCase {
 		n := rapid.IntRange(1, 50).Draw(t, "n")
 		var c c11SeqCase
 		for i := 0; i < n; i++ {
